@@ -28,6 +28,9 @@ func cmdDispose(args []string) int {
 				for _, sub := range []bool{true, false} {
 					for r := 0; r < *reps; r++ {
 						scs = append(scs, dispdrv.Scenario{Landing: landing, How: how, Handlers: h, Subs: sub})
+						if h && (landing == "idle" || landing == "eval") {
+							scs = append(scs, dispdrv.Scenario{Landing: landing, How: how, Handlers: h, Subs: sub, Detach: true})
+						}
 					}
 				}
 			}
